@@ -34,6 +34,16 @@ def gen_params(rng, k):
         cy, cx = float(rng.integers(-5, sy + 6)) + 0.5, float(rng.integers(-5, sx + 6)) + 0.5
     else:
         cy, cx = float(np.round(rng.uniform(-5, sy + 5), 3)), float(np.round(rng.uniform(-5, sx + 5), 3))
+    if k % 7 == 3:
+        # centre up to half a pixel outside the image (a border pixel is then closer than 0.5 px to the centre), or on the
+        # outermost half pixel inside
+        d = float(rng.choice([-0.45, -0.3, -0.1, 0.2, 0.4]))
+        if rng.random() < 0.5:
+            cy = -d if rng.random() < 0.5 else sy - 1 + d
+        else:
+            cx = -d if rng.random() < 0.5 else sx - 1 + d
+        if rng.random() < 0.5:
+            cy = float(np.clip(np.round(cy), 0, sy - 1)) if abs(cy - np.round(cy)) > 0.45 else cy
     ri = 0.0 if rng.random() < 0.5 else float(np.round(rng.uniform(0.5, 6), 2))
     n = int(rng.integers(1, 9))
     w = float(np.round(rng.uniform(1.0, 4.0), 2)) if rng.random() < 0.7 else float(rng.integers(1, 4))
@@ -107,6 +117,9 @@ def run_case(kind, p):
         msgs.append(f"bin value {dense.max()} > 1")
     tot = dense.sum(axis=0)
     inside = (r >= ri + 0.5 + eps) & (r <= R - 0.5 - eps)
+    if ri == 0:
+        # no inner boundary: the disk. Every pixel up to R - 0.5 is covered, including one closer than 0.5 px to the centre
+        inside = (r <= R - 0.5 - eps)
     outside = (r >= R + 0.5 + eps) | (r <= ri - 0.5 - eps)
     if inside.any() and np.abs(tot[inside] - 1).max() > 1e-9:
         i = np.argmax(np.abs(tot - 1) * inside)
